@@ -115,10 +115,19 @@ class StrDomain(Domain):
         if isinstance(v, Ref): v = ex.read(v.loc, st, node)
         return v
 
-    def _charset(self, node):
+    def _charset(self, node, fn=None):
         for x in node.walk():
             if x.k == 'str': return set(x.v)
             if x.k == 'char': return {chr(x.v)}
+        # a named constant (`constexpr auto separators = "/\\";`)
+        for x in node.walk():
+            if x.k == 'ref' and x.dk in ('local', 'global', 'static') and fn is not None:
+                for g in [fn] + [h for h in fn.tu.functions if h is not fn][:0]:
+                    for dn in g.nodes():
+                        if dn.k == 'decl':
+                            for v in dn.vars:
+                                if v['decl'] == x.decl and v.get('init') and v['init'] in dn.tu.ex:
+                                    return self._charset(Node(dn.tu, v['init']))
         return None
 
     def _cut(self, s, pos, what):
@@ -204,7 +213,7 @@ class StrDomain(Domain):
         if base in ('size', 'length'): return s.size()
         if base == 'empty': return cmp_lin('==', s.size(), Lin.const(0))
         if base in ('find_last_of', 'rfind'):
-            cs = self._charset(args[0]) if args else None
+            cs = self._charset(args[0], fr.fn) if args else None
             up = lin(args[1]) if len(args) > 1 else None
             if up is not None and up.is_const() and up.c in NPOS: up = None          # the defaulted `pos = npos`: from the end
             return self.find_last_of(s, cs, up)
